@@ -92,14 +92,14 @@ def analyse(fn):
             names.setdefault(st.targets[0].id, st)
     edge = [n for n, st in names.items() if roles.canon(st.value, defs, keep=(el, li)).replace(" ", "") == "%s[(%s,%s)]" % (ee, li, el)]
     if len(edge) != 1:
-        out.append(("edge of (element, local index)", False, "no local is defined as %s[local_index, element] in the numbering loop (found %s)" % (ee, {n: unparse(s.value)[:50] for n, s in names.items()}), inner.lineno))
+        out.append(("edge of (element, local index)", roles.found_or(False, names, "element_edges["), "no local is defined as %s[local_index, element] in the numbering loop (found %s)" % (ee, {n: unparse(s.value)[:50] for n, s in names.items()}), inner.lineno))
         return out
     E = edge[0]
     out.append(("edge of (element, local index)", True, "", inner.lineno))
     want_cn = roles.canon(ast.parse("%s[%s[%s]:%s[1+%s]]" % (en, ptr, E, ptr, E), mode="eval").body, roles._NoDefs()).replace(" ", "")
     cur = [n for n, st in names.items() if roles.canon(st.value, roles._NoDefs()).replace(" ", "") == want_cn]
     ok_cur = len(cur) == 1
-    out.append(("neighbours of the edge", ok_cur, "no local holds the CSR row %s[%s[e] : %s[e + 1]] of the edge" % (en, ptr, ptr), inner.lineno))
+    out.append(("neighbours of the edge", roles.found_or(ok_cur, names, ptr + "["), "no local holds the CSR row %s[%s[e] : %s[e + 1]] of the edge" % (en, ptr, ptr), inner.lineno))
     if not ok_cur:
         return out
     CN = cur[0]
@@ -110,7 +110,7 @@ def analyse(fn):
                 and unparse(v.generators[0].iter) == CN and len(v.generators[0].ifs) == 1 and unparse(v.generators[0].ifs[0]).replace(" ", "") == "%s[%s]" % (support, v.elt.id):
             sup.append(n)
     ok_sup = len(sup) == 1
-    out.append(("supported neighbours", ok_sup, "no local holds [e for e in <neighbours> if %s[e]]" % support, inner.lineno))
+    out.append(("supported neighbours", roles.found_or(ok_sup, names, support + "[", "for"), "no local holds [e for e in <neighbours> if %s[e]]" % support, inner.lineno))
     if not ok_sup:
         return out
     SN = sup[0]
@@ -169,7 +169,7 @@ def analyse(fn):
     e2 = [st.targets[0].id for st in ast.walk(i2) if isinstance(st, ast.Assign) and isinstance(st.targets[0], ast.Name)
           and roles.canon(st.value, defs, keep=(el2, li2)).replace(" ", "") == "%s[(%s,%s)]" % (ee, li2, el2)]
     if len(e2) != 1:
-        out.append(("dof map: edge of (element, local index)", False, "no local is defined as %s[local_index, element] in the dof-map loop" % ee, i2.lineno))
+        out.append(("dof map: edge of (element, local index)", roles.found_or(False, [st for st in ast.walk(i2) if isinstance(st, ast.Assign)], "element_edges["), "no local is defined as %s[local_index, element] in the dof-map loop" % ee, i2.lineno))
         return out
     E2 = e2[0]
     sn2 = [st.targets[0].id for st in ast.walk(i2) if isinstance(st, ast.Assign) and isinstance(st.targets[0], ast.Name) and isinstance(st.value, ast.ListComp)]
